@@ -17,6 +17,18 @@ theorem create_never_clobbers (fs fs' : FS) (draws : List String) (b : String) (
     (∀ p j, fs.lookup p = some j → fs'.lookup p = some j ∧ fs'.data j = fs.data j) :=
   createLoop_frame_aux fs fs' draws b i h
 
+/-- witness directory: a published file `a.dat` and an orphaned `b.tmp` left by a crashed writer -/
+private def nv_fs : FS := { names := [("a.dat", 0), ("b.tmp", 1)], inodes := [(0, [1]), (1, [2])], next := 2 }
+
+/-- non-vacuity: the premise of `create_never_clobbers` holds for a draw sequence that collides with a published file, then with an orphaned temp file, and settles on the third name; the theorem applies -/
+example : ∃ fs' i, createLoop nv_fs ["a", "b", "c"] = some (fs', "c", i) ∧
+    fs'.lookup "a.dat" = some 0 ∧ fs'.lookup "b.tmp" = some 1 ∧ fs'.lookup "b.dat" = none :=
+  have h : createLoop nv_fs ["a", "b", "c"] =
+      some (⟨[("a.dat", 0), ("b.tmp", 1), ("c.dat", 3), ("c.tmp", 4)],
+             [(0, [1]), (1, [2]), (2, []), (3, []), (4, [])], 5⟩, "c", 4) := by decide
+  ⟨_, _, h, ((create_never_clobbers _ _ _ _ _ h).2.2 "a.dat" 0 (by decide)).1,
+    ((create_never_clobbers _ _ _ _ _ h).2.2 "b.tmp" 1 (by decide)).1, by decide⟩
+
 /-- TombstoneFile removes every artifact of its pointer and touches nothing else. -/
 theorem tombstone_removes_all (s : St) (b : String) :
     (step s (.tombstone b)).1.fs.lookup (dat b) = none ∧ (step s (.tombstone b)).1.fs.lookup (tmp b) = none ∧
@@ -35,7 +47,92 @@ theorem C16_refinement_partial (s : St) (spec : String → PStatus) (op : Op)
     (∀ w ∈ (step s op).1.writers, w.ino < (step s op).1.fs.next) :=
   refines_step_aux s spec op hbase hr hw hwr ha
 
+/-- The side condition of `C16_refinement_partial` is a fact about string append: `base ↦ base.dat` and
+    `base ↦ base.tmp` are injective and their images are disjoint. -/
+theorem names_distinct (b1 b2 : String) :
+    (dat b1 = dat b2 → b1 = b2) ∧ (tmp b1 = tmp b2 → b1 = b2) ∧ dat b1 ≠ tmp b2 := by
+  refine ⟨fun h => (String.append_left_inj ".dat").mp h, fun h => (String.append_left_inj ".tmp").mp h, ?_⟩
+  intro h
+  have h' := congrArg (fun s => s.toList.getLast?) h
+  simp [dat, tmp, String.toList_append] at h'
+
+/-- The refinement step with that side condition discharged. -/
+theorem C16_refinement_step_partial (s : St) (spec : String → PStatus) (op : Op)
+    (hr : Refines s spec) (hw : FSWF s.fs) (hwr : ∀ w ∈ s.writers, w.ino < s.fs.next) (ha : Allowed s op) :
+    Refines (step s op).1 (specStep spec s op (step s op).2) ∧ FSWF (step s op).1.fs ∧
+    (∀ w ∈ (step s op).1.writers, w.ino < (step s op).1.fs.next) :=
+  C16_refinement_partial s spec op names_distinct hr hw hwr ha
+
+/-- witness history: one pointer written and published, a second one (drawn after a name collision) still being written -/
+private def nv_ops : List Op := [.create ["x"], .write 0 [1, 1], .create ["x", "y"], .write 1 [9], .close 0]
+private def nv_s : St := (runOps {} nv_ops).1
+
+/-- non-vacuity: the premises of `C16_refinement_partial` hold jointly — `hbase` is a theorem about string append, and `Refines`/`FSWF`/the inode bound hold of the state reached by five real operations (obtained from the base case `refines_init_aux` by iterating the theorem itself), where tombstoning the published pointer is `Allowed`; the theorem applies once more -/
+example : ∃ (s : St) (spec : String → PStatus) (op : Op),
+    (∀ b1 b2 : String, (dat b1 = dat b2 → b1 = b2) ∧ (tmp b1 = tmp b2 → b1 = b2) ∧ dat b1 ≠ tmp b2) ∧
+    Refines s spec ∧ FSWF s.fs ∧ (∀ w ∈ s.writers, w.ino < s.fs.next) ∧ Allowed s op ∧
+    s = nv_s ∧ s.writers.length = 2 ∧ spec "x" = .published [1, 1] ∧ spec "y" = .writing [9] ∧
+    op = .tombstone "x" ∧ Refines (step s op).1 (specStep spec s op (step s op).2) := by
+  have hbase : ∀ b1 b2 : String, (dat b1 = dat b2 → b1 = b2) ∧ (tmp b1 = tmp b2 → b1 = b2) ∧ dat b1 ≠ tmp b2 := by
+    intro b1 b2
+    refine ⟨fun h => (String.append_left_inj ".dat").mp h, fun h => (String.append_left_inj ".tmp").mp h, ?_⟩
+    intro h
+    have h' := congrArg (fun s => s.toList.getLast?) h
+    simp [dat, tmp, String.toList_append] at h'
+  have h0 := refines_init_aux
+  have h1 := C16_refinement_partial {} _ (.create ["x"]) hbase h0.1 h0.2 (by intro w hw; cases hw) trivial
+  have h2 := C16_refinement_partial _ _ (.write 0 [1, 1]) hbase h1.1 h1.2.1 h1.2.2 trivial
+  have h3 := C16_refinement_partial _ _ (.create ["x", "y"]) hbase h2.1 h2.2.1 h2.2.2 trivial
+  have h4 := C16_refinement_partial _ _ (.write 1 [9]) hbase h3.1 h3.2.1 h3.2.2 trivial
+  have h5 := C16_refinement_partial _ _ (.close 0) hbase h4.1 h4.2.1 h4.2.2 trivial
+  have ha : Allowed nv_s (.tombstone "x") := by
+    show ∀ w ∈ nv_s.writers, w.base = "x" → w.closed = true
+    decide
+  exact ⟨_, _, .tombstone "x", hbase, h5.1, h5.2.1, h5.2.2, ha, rfl, by decide, by decide, by decide, rfl,
+    (C16_refinement_partial _ _ _ hbase h5.1 h5.2.1 h5.2.2 ha).1⟩
+
+/-- non-vacuity: in the same state, aborting the still-open writer is `Allowed` too (the guard of `.abort`) -/
+example : Allowed nv_s (.abort 1) := by
+  show ∀ w, nv_s.writers[1]? = some w → (w.closed = false ∨ w.published = true)
+  intro w hw
+  have e : nv_s.writers[1]? = some ⟨"y", 3, false, false⟩ := by decide
+  rw [e] at hw; cases hw; exact Or.inl rfl
+
 theorem refinement_base : Refines {} (fun _ => .gone) ∧ FSWF ({} : St).fs := refines_init_aux
+
+/-- The specification run alongside the implementation over a call sequence. -/
+def runSpec : (String → PStatus) → St → List Op → (String → PStatus) × St
+  | spec, s, [] => (spec, s)
+  | spec, s, op :: ops => runSpec (specStep spec s op (step s op).2) (step s op).1 ops
+
+/-- Every call of the sequence is allowed in the state it is made in (the discipline of the partial
+    statement: tombstone only finished pointers; Abort only an open or a published writer). -/
+def AllowedAll : St → List Op → Prop
+  | _, [] => True
+  | s, op :: ops => Allowed s op ∧ AllowedAll (step s op).1 ops
+
+/-- **C16 over whole call sequences** (partial by the discipline only): after ANY allowed sequence of
+    CreateFile (any draw scripts), Write, Close, Abort, TombstoneFile and OpenFile calls from the empty
+    directory, the directory implements the specification state computed alongside. -/
+theorem C16_refinement_history_partial (ops : List Op) (h : AllowedAll {} ops) :
+    Refines (runSpec (fun _ => .gone) {} ops).2 (runSpec (fun _ => .gone) {} ops).1 := by
+  suffices H : ∀ (ops : List Op) (s : St) (spec : String → PStatus), Refines s spec → FSWF s.fs →
+      (∀ w ∈ s.writers, w.ino < s.fs.next) → AllowedAll s ops → Refines (runSpec spec s ops).2 (runSpec spec s ops).1 by
+    exact H ops {} _ refinement_base.1 refinement_base.2 (by intro w hw; cases hw) h
+  intro ops
+  induction ops with
+  | nil => intro s spec hr _ _ _; exact hr
+  | cons op ops ih =>
+    intro s spec hr hw hwr ha
+    obtain ⟨h1, h2, h3⟩ := C16_refinement_step_partial s spec op hr hw hwr ha.1
+    exact ih _ _ h1 h2 h3 ha.2
+
+/-- non-vacuity: a disciplined sequence with a publish, a tombstone of the finished pointer and a reuse of
+    its name by a new writer -/
+example : AllowedAll {} [.create ["x"], .write 0 [1, 1], .close 0, .tombstone "x", .create ["x"], .write 1 [9], .close 1, .open_ "x"] := by
+  refine ⟨trivial, trivial, trivial, ?_, trivial, trivial, trivial, trivial, trivial⟩
+  show ∀ w : Writer, w ∈ _ → w.base = "x" → w.closed = true
+  decide
 
 /-- The unguarded statement is false of the unchanged code. -/
 theorem C16_counterexample :
